@@ -37,7 +37,7 @@ def load_pytenet():
 
 
 FAULT_KINDS = ['QRSIGN', 'SVDPHASE', 'SVDROT', 'TIEORDER', 'EIGSIGN', 'ULP', 'RNGENV', 'LAYOUT', 'WPROT', 'RAISE',
-               'CBALIAS', 'CBBUF', 'CBRO', 'CBCALLS']
+               'CBALIAS', 'CBBUF', 'CBRO', 'CBMEMO', 'CBCALLS']
 
 
 class InjectedBackendFailure(Exception):
@@ -114,6 +114,7 @@ class Env:
         self.active_kinds = set(k for k in op_env.get('kinds', []) if k in self.enabled)
         ra = op_env.get('raise_at')
         self.raise_at = ra if (ra is not None and 'RAISE' in self.enabled) else None
+        self.raise_on = op_env.get('raise_on', 'any')
         self.lapack_calls = 0
         self.raised = None
         self.opfired = set()
@@ -129,6 +130,8 @@ class Env:
 
     def maybe_raise(self, which):
         if self.in_monitor or self.raise_at is None:
+            return
+        if getattr(self, 'raise_on', 'any') == 'svd' and which != 'svd':
             return
         k = self.lapack_calls
         self.lapack_calls += 1
